@@ -32,9 +32,12 @@ class Batch:
     """driver lines with what to compare their answers with"""
 
     def __init__(self):
-        self.lines, self.expect, self.meta = [], [], []
+        self.lines, self.expect, self.meta, self.post = [], [], [], {}
 
-    def add(self, line, expect, site, input_class, what, repro):
+    def add(self, line, expect, site, input_class, what, repro, post=None):
+        """`post`: normalisation applied to the model's answer before it is compared"""
+        if post is not None:
+            self.post[len(self.lines)] = post
         self.lines.append(line); self.expect.append(expect); self.meta.append((site, input_class, what, repro))
 
 
@@ -86,6 +89,21 @@ def check_property(ctx, spec, model, kind, data, dump_kw, relabelled=False, whic
         for name, expr, what in bad:
             ctx.fail('property', f'{cls.__name__}.to_file/{name}', ic, what,
                      repro=repro_roundtrip(spec, kind, dump_kw, expr.format(cls=F.CLS[kind]), relabelled, f64), detail=dict(spec=spec))
+
+
+def wire_hdr(hv):
+    """a parsed BQM / QM / expression header dictionary in the driver's `showHeaderDict` form"""
+    v = hv.get('variables', False)
+    if isinstance(v, list):
+        vs = '[' + '+'.join(F.wire_label(dimod.variables.deserialize_variable(x)) for x in v) + ']'
+    else:
+        vs = 'T' if v else 'F'
+    return (f"shape={hv['shape'][0]},{hv['shape'][1]} dtype={hv['dtype']} itype={hv['itype']} ntype={hv.get('ntype', '-')} "
+            f"vartype={hv.get('vartype', '-')} type={hv['type']} variables={vs}")
+
+
+def wire_labels(variables):
+    return ';'.join(F.wire_label(v) for v in variables) or '-'
 
 
 def label_class(labels):
@@ -157,6 +175,8 @@ def bqm_case(ctx, r, B, spec):
             H = F.wire_H(n, m.num_interactions, dt.itemsize, vf, vartype=0 if m.vartype is dimod.SPIN else 1)
             off, lin, low = F.content_qm(m)
             vt = F.hx(F.vars_text(m.variables))
+            B.add(f'hdrbqm {ver} {int(ign)} {0 if m.vartype is dimod.SPIN else 1} {dt.itemsize} 4 {lin} {low} {wire_labels(m.variables)}',
+                  wire_hdr(hv), 'BinaryQuadraticModel.to_file header dict vs bqmHeaderDict', ic, 'header dictionary (values)', rp)
             B.add(f'encbqm {ver} {F.hx(text)} {H} {off} {lin} {low} {vt}', F.hx(data), site, ic, 'encoded bytes', rp)
             new = dimod.BQM.from_file(data)
             off2, lin2, low2 = F.content_qm(new)
@@ -193,6 +213,8 @@ def qm_case(ctx, r, B, spec):
     off, lin, low = F.content_qm(m)
     vi = F.content_varinfo(m, m.dtype)
     vt = F.hx(F.vars_text(m.variables))
+    B.add(f'hdrqm {m.dtype.itemsize} 4 {lin} {low} {wire_labels(m.variables)}', wire_hdr(hv),
+          'QuadraticModel.to_file header dict vs qmHeaderDict', ic, 'header dictionary (values)', rp)
     B.add(f'encqm {F.hx(text)} {H} {vi} {off} {lin} {low} {vt}', F.hx(data), site, ic, 'encoded bytes', rp)
     new = dimod.QM.from_file(data)
     off2, lin2, low2 = F.content_qm(new)
@@ -314,6 +336,8 @@ def cqm_case(ctx, r, B, spec):
         # expressions on their own (objective member)
         if 'objective' in md:
             hvx, Hx = expr_header_H(otext)
+            B.add(f'hdrexpr {hvx["type"]} 8 4 {F.content_expr(m.objective, variables)}', wire_hdr(hvx),
+                  '_cyExpression._into_file header dict vs exprHeaderDict', ic, 'header dictionary (values)', rp)
             B.add(f'decexpr full {F.hx(otext)} {Hx} {F.hx(md["objective"])}',
                   'ok ' + F.content_expr(m.objective, variables) + ' rest=0', '_cyExpression._into_file vs exprDecode', ic, 'expression member', rp)
 
@@ -343,8 +367,18 @@ def dqm_case(ctx, r, B, spec):
                 continue
             ln = int.from_bytes(data[hend + 4:hend + 8], 'little')
             npz = data[hend + 8:hend + 8 + ln]
+            # the arrays inside the npz blob and the header numbers, from the model's content
+            members = F.wire_members(F.npz_members(npz))
+            counts = f"{hv['num_variables']},{hv['num_cases']},{hv['num_case_interactions']},{hv['num_variable_interactions']}"
+            B.add(f'encdqmm {F.content_dqm(m)}', members + ' counts=' + counts, 'DiscreteQuadraticModel._to_file_numpy vs dqmMembers', ic,
+                  'npz arrays (names, order, dtypes, shapes, payloads) and header counts', rp)
+            new = dimod.DQM.from_file(data)
+            B.add(f'decdqmm {members}', 'ok ' + F.content_dqm(new), 'DiscreteQuadraticModel.from_numpy_vectors vs dqmFromMembers', ic,
+                  'content rebuilt from the arrays', rp)
             vt = F.hx(F.vars_text(m.variables))
             lab = '1' if want['variables'] else '0'
+            B.add(f'hdrdqm {int(ign)} {wire_labels(m.variables)}', 'T' if hv['variables'] else 'F',
+                  'DiscreteQuadraticModel.to_file variables flag vs dqmVariablesFlag', ic, 'header flag', rp)
             B.add(f'encdqm {F.hx(text)} {lab} {F.hx(npz)} {vt}', F.hx(data), 'DiscreteQuadraticModel.to_file vs dqmEncode', ic,
                   'framing bytes around the npz blob', rp)
             B.add(f'decdqm full {F.hx(text)} {lab} {vt} {n} {ln} {n} {F.hx(data)}',
@@ -384,6 +418,57 @@ def label_cases(ctx, r, B):
         mt = CON_RE.match(path)
         B.add(f'matchpath {F.hx(path.encode())}', F.hx(mt.group(1).encode()) if mt else 'none', 're.match vs matchConstraint', 'path',
               'constraint directory split', '')
+
+
+def wire_json(v):
+    """a value `json.loads` returned, in the driver's form (floats by the text json.dumps writes for them)"""
+    if isinstance(v, bool) or v is None or isinstance(v, dict):
+        raise TypeError
+    if isinstance(v, int):
+        return f'i:{v}'
+    if isinstance(v, float):
+        return 'f:' + json.dumps(v).encode().hex()
+    if isinstance(v, str):
+        return 's:' + (v.encode('utf-8', 'surrogatepass').hex() or '-')
+    return 'a:[' + '+'.join(wire_json(x) for x in v) + ']'
+
+
+JSON_TEXTS = ['0', '-0', '7', '-12', '01', '1.', '1.5', '-0.25', '1e5', '1E5', '1e+16', '1.5e-07', '1e', '1e+', '-', '--1', '+1', '.5', '1.5.2',
+              '[]', '[ ]', '[1]', '[1, 2]', ' [ 1 , 2 ] ', '[1,]', '[,1]', '[1 2]', '[[], []]', '[[1, [2, "x"]], "y", 2.5]', '[', ']', '[1', '[1,',
+              '"a"', '"a" x', '"a/b"', '"a' + chr(92) + 'u002fb"', ' "sp"  ', '["a", 1, [2.0, "b/c"]]', 'NaN', 'Infinity', '-Infinity', '-Inf', 'nan',
+              '[NaN, -Infinity]', '1 2', '', ' ', '12345678901234567890123', '-9e999', '0.0', '0e0', '00', '-01', '1e05', '[1.0e+2]', '\t[1]\n',
+              '[1]]', '[[1]', '"\\ud83d\\ude00"', '[1,\n 2]']
+
+
+def _float_tokens_to_values(g):
+    """the model keeps a float as its text; `float(text)` is Python's (contract): compare by the value's canonical text"""
+    def sub(m):
+        tok = bytes.fromhex(m.group(1)).decode()
+        return 'f:' + json.dumps(float(tok.replace('Infinity', 'inf').replace('NaN', 'nan'))).encode().hex()
+    return re.sub(r'f:([0-9a-f]+)', sub, g)
+
+
+def json_cases(ctx, r, B):
+    """the JSON model (`loadsJ`) against `json.loads`: label texts, label lists, hand-made edge cases"""
+    texts = list(JSON_TEXTS)
+    for l in F.LABEL_POOL:
+        t = json.dumps(dimod.variables.serialize_variable(l))
+        texts += [t, t.replace('/', '\\u002f'), t + '  ', t[:-1], t + ']']
+    for _ in range(ctx.scale(40, 400)):
+        labs = F.pick_labels(r, r.randint(0, 5), 'mixed')
+        t = json.dumps(list(dimod.variables.iter_serialize_variables(labs)))
+        texts += [t, t + ' ' * r.randint(0, 9), t[:r.randrange(len(t))]]
+    for t in texts:
+        ctx.case(('json', t), nontrivial=True); ctx.tick('json text')
+        try:
+            v = json.loads(t)
+            exp = wire_json(v)
+        except ValueError:
+            exp = 'none'
+        except TypeError:
+            continue
+        B.add(f'loadsj {F.hx(t.encode("utf-8", "surrogatepass"))}', exp, 'json.loads vs loadsJ', 'accepted text' if exp != 'none' else 'rejected text',
+              f'text {t!r}', F.PRELUDE + f"t = {t!r}\n", post=_float_tokens_to_values)
 
 
 def header_section_cases(ctx, r, B):
@@ -503,28 +588,70 @@ def bundled(ctx, B):
             B.add(f'deccqm 8 {cqm_counts(hv)} {oracle} {",".join(F.hx(dd.encode()) + ":1" for dd in dirs) or "-"} {wm}', exp,
                   'ConstrainedQuadraticModel.from_file vs cqmDecodeChecked', f'bundled {fn}', 'decoded content', rp)
         else:
-            # legacy layout: the objective and every lhs are QM / BQM files -- decode those members with both
-            for nm, bts in members:
-                if nm == 'objective' or nm.endswith('/lhs'):
-                    pre2, v2, t2, he2 = F.split_header(bts)
-                    hv2 = json.loads(t2)
-                    real = fv_load(bts)
-                    nvar = hv2['shape'][0]
-                    if pre2 == b'DIMODQM':
-                        H = F.wire_H(nvar, hv2['shape'][1], np.dtype(hv2['dtype']).itemsize, 'T' if hv2['variables'] else 'F')
-                        off, lin, low = F.content_qm(real)
-                        vt = F.hx(F.vars_text(real.variables))
-                        B.add(f'decqm full {F.hx(t2)} {H} {vt} {nvar} {F.hx(bts)}',
-                              f'ok vi={F.content_varinfo(real, real.dtype)} off={off} lin={lin} low={low} labels={nvar if hv2["variables"] else "none"} rest=0',
-                              'QuadraticModel.from_file vs qmDecode', f'bundled {fn}', f'member {nm}', rp)
-                    elif pre2 == b'DIMODBQM':
-                        vf = ('T' if hv2['variables'] else 'F') if v2 >= (2, 0) else f"L{len(hv2['variables'])}"
-                        H = F.wire_H(nvar, hv2['shape'][1], np.dtype(hv2['dtype']).itemsize, vf, vartype=0 if hv2['vartype'] == 'SPIN' else 1)
-                        off, lin, low = F.content_qm(real)
-                        vt = F.hx(F.vars_text(real.variables))
-                        nl = nvar if (hv2['variables'] and nvar) else 'none'
-                        B.add(f'decbqm full {F.hx(t2)} {H} {vt} {nvar} {F.hx(bts)}', f'ok off={off} lin={lin} low={low} labels={nl} rest=0',
-                              'BinaryQuadraticModel.from_file vs bqmDecode', f'bundled {fn}', f'member {nm}', rp)
+            legacy_case(ctx, B, fn, data, a, rp)
+
+
+def label_code(l):
+    """labels as numbers for the driver: a small non-negative int is itself, anything else gets a code from a table"""
+    if isinstance(l, (int, np.integer)) and not isinstance(l, bool) and 0 <= int(l) < 10 ** 6:
+        return int(l)
+    key = repr(F.typed(l))
+    return 10 ** 6 + int.from_bytes(__import__('hashlib').blake2b(key.encode(), digest_size=4).digest(), 'big')
+
+
+def wire_loaded(real):
+    """canonical text of what `fileview.load` returned for a member (QM or BQM), as the driver prints it"""
+    n = real.num_variables
+    off, lin, low = F.content_qm(real)
+    is_range = list(real.variables) == list(range(n))
+    labels = 'none' if is_range else (','.join(str(label_code(v)) for v in real.variables) or '-')
+    if isinstance(real, dimod.QuadraticModel):
+        return f'qm/vi={F.content_varinfo(real, real.dtype)}/{off}/{lin}/{low}/{labels}'
+    return f'bqm/vt={0 if real.vartype is dimod.SPIN else 1}/{off}/{lin}/{low}/{labels}'
+
+
+def legacy_case(ctx, B, fn, data, cqm, rp):
+    """a bundled 1.x file through the whole legacy loader model (`legacyDecodeChecked`)"""
+    pre, fver, text, hend = F.split_header(data)
+    hv = json.loads(text)
+    members = archive_of(data, hend)
+    dirs = []
+    for nm, _ in members:
+        mt = CON_RE.match(nm)
+        if mt and mt.group(1) not in dirs:
+            dirs.append(mt.group(1))
+    htable, vtable, loaded = {}, {}, {}
+    for nm, bts in members:
+        if nm == 'objective' or nm.endswith('/lhs'):
+            pre2, v2, t2, he2 = F.split_header(bts)
+            hv2 = json.loads(t2)
+            real = fv_load(bts)
+            loaded[nm] = real
+            nvar = hv2['shape'][0]
+            if pre2 == b'DIMODQM':
+                htable[t2] = F.wire_H(nvar, hv2['shape'][1], np.dtype(hv2['dtype']).itemsize, 'T' if hv2['variables'] else 'F')
+            else:
+                vf = ('T' if hv2['variables'] else 'F') if v2 >= (2, 0) else f"L{len(hv2['variables'])}"
+                htable[t2] = F.wire_H(nvar, hv2['shape'][1], np.dtype(hv2['dtype']).itemsize, vf, vartype=0 if hv2['vartype'] == 'SPIN' else 1)
+            if hv2['variables']:
+                vtable[F.vars_text(real.variables)] = '.'.join(str(label_code(v)) for v in real.variables) or '-'
+    counts = ','.join(str(hv.get(k, '-')) for k in ('num_variables', 'num_constraints', 'num_biases', 'num_quadratic_variables',
+                                                     'num_quadratic_variables_real', 'num_linear_biases_real', 'num_weighted_constraints'))
+    cons = []
+    for d in dirs:
+        label = dimod.variables.deserialize_variable(json.loads(d))
+        comp = cqm.constraints[label]
+        soft = '-'
+        if comp.lhs.is_soft():
+            soft = F.hx(F.fbytes(comp.lhs.weight(), np.float64)) + ':' + F.hx(comp.lhs.penalty().encode('ascii'))
+        cons.append('~'.join([F.hx(d.encode()), wire_loaded(loaded[f'constraints/{d}/lhs']), F.hx(F.fbytes(comp.rhs, np.float64)),
+                              F.hx(comp.sense.value.encode('ascii')), '1' if comp.lhs.is_discrete() else '0', soft]))
+    exp = 'ok obj=' + wire_loaded(loaded['objective']) + ' cons=' + ('^'.join(cons) or '-')
+    wm = ','.join(F.hx(nm.encode()) + '=' + F.hx(bts) for nm, bts in members) or '-'
+    B.add(f'declegacy {fver[0]}.{fver[1]} {counts} {";".join(F.hx(t) + "=" + h for t, h in htable.items())} '
+          f'{";".join(F.hx(t) + "=" + c for t, c in vtable.items()) or "-"} {",".join(F.hx(d.encode()) + ":1" for d in dirs) or "-"} {wm}',
+          exp, 'ConstrainedQuadraticModel._from_file_legacy vs legacyDecodeChecked', f'bundled {fn}',
+          'loaded members, attributes and header check', rp)
 
 
 # ------------------------------------------------------------------ driver
@@ -536,6 +663,8 @@ def flush(ctx, B):
     ctx.corr_lines += len(B.lines)
     for i, ln in enumerate(B.lines):
         g = got[i] if i < len(got) else 'MISSING'
+        if i in B.post:
+            g = B.post[i](g)
         if g != B.expect[i]:
             site, ic, what, rp = B.meta[i]
             k = next((j for j in range(min(len(g), len(B.expect[i]))) if g[j] != B.expect[i][j]), min(len(g), len(B.expect[i])))
@@ -555,6 +684,7 @@ def run(ctx):
     counts = dict(bqm=ctx.scale(220, 2500), qm=ctx.scale(400, 4000), cqm=ctx.scale(260, 3000), dqm=ctx.scale(80, 800))
     header_section_cases(ctx, r, B)
     label_cases(ctx, r, B)
+    json_cases(ctx, r, B)
     bundled(ctx, B)
     for kind, fn in (('bqm', bqm_case), ('qm', qm_case), ('cqm', cqm_case), ('dqm', dqm_case)):
         for _ in range(counts[kind]):
